@@ -381,6 +381,7 @@ def selftest():
     base = protos[0]
     jpc = [i for i, h in enumerate(base["hi"]) if h // 1024 == 25][0]
     gpc = [i for i, h in enumerate(base["hi"]) if h // 1024 == 6][0]
+    rpc = [i for i, h in enumerate(base["hi"]) if h // 1024 == 33 and base["lo"][i] % 512 == 2][0]
 
     def mut(f):
         r = json.loads(json.dumps(base))
@@ -393,6 +394,9 @@ def selftest():
             ("line table too long", "line-table:length", mut(lambda r: r.update(nline=r["nline"] + 1))),
             ("global name constant is a number", "string-key:GETGLOBAL", mut(lambda r: r["kt"].__setitem__(r["lo"][gpc], 2))),
             ("string table out of step", "string-constants:content", mut(lambda r: r["sk"].__setitem__(0, "zz"))),
+            ("RETURN names a register nothing writes", "reg-unwritten:RETURN", mut(lambda r: (
+                r.update(nreg=r["nreg"] + 3),
+                r["hi"].__setitem__(rpc, 33 * 1024 + (r["nreg"] - 1) * 4 + r["hi"][rpc] % 4)))),
             ("more locals in scope than registers", "locals:more-live-locals", mut(lambda r: (
                 r["ls"].extend([0] * (r["nreg"] + 1)), r["le"].extend([len(r["hi"])] * (r["nreg"] + 1)))))]
     for i, (_, _, r) in enumerate(recs):
